@@ -80,6 +80,8 @@ type Action struct {
 	Data string `json:"data,omitempty"`
 	// nextBlock: consensus keys (pool indexes) whose validators did not sign the previous block
 	Absent []int `json:"absent,omitempty"`
+	// Restart (nextBlock): the node is restarted after the commit of the block that ends
+	Restart bool `json:"restart,omitempty"`
 	// Sim: the action's transaction is not delivered but simulated on the node that records the
 	// history (tx simulation / gas estimation endpoint); it is part of no block
 	Sim bool `json:"sim,omitempty"`
@@ -140,6 +142,8 @@ type Machine struct {
 	lastEth      *ethBuilt               // the last Ethereum transaction sent by an "ethTx" action
 	blockGas     uint64                  // gas limits of the Ethereum transactions included in the block in progress
 	rawCapBits   int                     // cap on integer arguments of raw precompile calls (listed overflow findings)
+	restartNext  bool                    // restart the node after the commit of the current block
+	Restarts     int                     // restarts performed
 	absentNext   []int                   // consensus keys missing from the last commit of the next block
 	downSticky   []int                   // generator memory: the keys that were down in the previous downtime block
 }
@@ -307,6 +311,7 @@ func (m *Machine) Apply(a *Action) (Outcome, error) {
 			dt = 1
 		}
 		m.absentNext = a.Absent
+		m.restartNext = a.Restart
 		if err := m.nextBlock(dt); err != nil {
 			return Outcome{}, err
 		}
@@ -647,6 +652,17 @@ func (m *Machine) nextBlock(dt int) error {
 				}
 			}
 		}
+	}
+	if m.restartNext && c.Halted == nil {
+		m.restartNext = false
+		if err := c.Restart(); err != nil {
+			if h, ok := err.(*sim.Halt); ok {
+				c.Halted = h
+			} else {
+				return err
+			}
+		}
+		m.Restarts++
 	}
 	var opts *sim.BlockOpts
 	if len(m.absentNext) > 0 {
